@@ -16,7 +16,7 @@ Definition part_of {A} (r : A -> bytes) (o : outcome A) : part :=
 
 Fixpoint render (ps : list part) (acc : list bytes) : bytes :=
   match ps with
-  | [] => words (rev acc)
+  | [] => words (fast_rev acc)
   | PV b :: r => render r (b :: acc)
   | PPanic :: _ => str "PANIC"
   | PFuel :: _ => str "FUEL"
